@@ -90,6 +90,9 @@ type roundSpec struct {
 	// QuiesceBetween: wait for exact quiescence after each opened gate (only
 	// possible when no publisher is blocked by back-pressure).
 	QuiesceBetween bool
+	// OldEnd (kind "relinkstall", round 0): how the stalled old stream of edge 0
+	// ends after it has been replaced: "unstall" or "close".
+	OldEnd string
 }
 
 type c28cfg struct {
@@ -504,6 +507,149 @@ func genC28Stall(rng *rand.Rand, idx int, yield bool, lo, hi int) *c28cfg {
 	return c
 }
 
+// genC28Multi: multigraphs. Some pairs of nodes are connected by 2-3 parallel
+// links (streams with different link ids, as with two transports between the
+// same peers), in meshes of >= 3 nodes so that a neighbour forwards messages it
+// did not publish over parallel links. The wire rules of checkRound are per
+// PEER (tap events carry node indexes), so a copy sent back to the previous hop
+// over "the other" link is an echo; delivery must stay exactly-once.
+func genC28Multi(rng *rand.Rand, idx int, yield bool) *c28cfg {
+	c := &c28cfg{Idx: idx, Kind: "multi", Yield: yield, Chans: []string{"a"}}
+	sg := smallGraphs()
+	gs := []graph{line(3), complete(3), line(4), star(4), sg[6], ring(4), sg[7], line(5), star(5), ring(5)}
+	c.G = gs[rng.IntN(len(gs))]
+	c.G.edges = append([][2]int(nil), c.G.edges...)
+	relabel(rng, &c.G)
+	c.G.name = "multi-" + c.G.name
+	base := len(c.G.edges)
+	var extra []int // indexes of the added parallel edges
+	dupEdge := func(ei int) {
+		e := c.G.edges[ei]
+		if rng.IntN(2) == 0 {
+			e = [2]int{e[1], e[0]} // the other side initiates the second stream
+		}
+		extra = append(extra, len(c.G.edges))
+		c.G.edges = append(c.G.edges, e)
+	}
+	switch rng.IntN(4) {
+	case 0: // every link doubled
+		for ei := 0; ei < base; ei++ {
+			dupEdge(ei)
+		}
+	default:
+		for k := 1 + rng.IntN(2); k > 0; k-- {
+			ei := rng.IntN(base)
+			dupEdge(ei)
+			if rng.IntN(4) == 0 {
+				dupEdge(ei) // three parallel links
+			}
+		}
+	}
+	two := rng.IntN(3) == 0 // the parallel links come up late: a second round
+	nr := 1
+	if two {
+		nr = 2
+	}
+	c.Rounds = make([]roundSpec, nr)
+	subd := make([]bool, c.G.n)
+	for v := 0; v < c.G.n; v++ {
+		c.Rounds[0].Events = append(c.Rounds[0].Events, event{Kind: evExec, Node: v})
+		if rng.IntN(10) < 9 {
+			subd[v] = true
+			c.Subs = append(c.Subs, subSpec{Node: v, Ch: "a", Handlers: 1 + rng.IntN(2)})
+		}
+	}
+	for i := range c.Subs {
+		c.Rounds[0].Events = append(c.Rounds[0].Events, event{Kind: evSub, Sub: i})
+	}
+	isExtra := map[int]bool{}
+	for _, ei := range extra {
+		isExtra[ei] = true
+	}
+	for ei := range c.G.edges {
+		rd := 0
+		if two && isExtra[ei] {
+			rd = 1
+		}
+		c.Rounds[rd].Events = append(c.Rounds[rd].Events, event{Kind: evLink, Edge: ei, AFirst: rng.IntN(2) == 0})
+	}
+	for ri := range c.Rounds {
+		ev := c.Rounds[ri].Events
+		rng.Shuffle(len(ev), func(i, j int) { ev[i], ev[j] = ev[j], ev[i] })
+		c.Rounds[ri].Concurrent = rng.IntN(2) == 0
+		for k := 1 + rng.IntN(5); k > 0; k-- {
+			o := rng.IntN(c.G.n)
+			c.Rounds[ri].Pubs = append(c.Rounds[ri].Pubs, pubSpec{Origin: o, Ch: "a", Direct: !subd[o] || rng.IntN(6) == 0})
+		}
+	}
+	// sometimes one of the parallel links is slow (its copies are held back
+	// until the rest of the mesh is quiescent)
+	if rng.IntN(3) == 0 {
+		last := &c.Rounds[nr-1]
+		for _, ei := range extra {
+			if rng.IntN(2) == 0 {
+				last.Gates = addGate(last.Gates, gateSpec{Edge: ei, Dir: rng.IntN(2), Mode: "hold"})
+			}
+		}
+		if len(last.Gates) == 0 {
+			last.Gates = append(last.Gates, gateSpec{Edge: extra[0], Dir: rng.IntN(2), Mode: "hold"})
+		}
+		last.QuiesceBetween = rng.IntN(2) == 0
+	}
+	assignKeys(rng, c, []string{"node", "node", "node", "foreign", "mixed"}[rng.IntN(5)])
+	return c
+}
+
+// genC28RelinkStall: the stream of edge 0's (peer, link) tuple is replaced on
+// both ends while the OLD stream is stalled with a session stuck in a stream
+// write (round-0 publishes are forwarded into it), so that the old sessions
+// outlive the start of their replacements; then the old stream drains or is
+// closed (the old sessions exit late). Round 1: one publish from every node
+// must be delivered exactly.
+func genC28RelinkStall(rng *rand.Rand, idx int, yield bool) *c28cfg {
+	c := &c28cfg{Idx: idx, Kind: "relinkstall", Yield: yield, Chans: []string{"a"}}
+	c.G = []graph{line(2), line(3), complete(3), line(4), star(4)}[rng.IntN(5)]
+	c.G.edges = append([][2]int(nil), c.G.edges...)
+	relabel(rng, &c.G)
+	c.Rounds = make([]roundSpec, 2)
+	for v := 0; v < c.G.n; v++ {
+		c.Subs = append(c.Subs, subSpec{Node: v, Ch: "a", Handlers: 1})
+		c.Rounds[0].Events = append(c.Rounds[0].Events, event{Kind: evExec, Node: v}, event{Kind: evSub, Sub: v})
+	}
+	for i := range c.G.edges {
+		c.Rounds[0].Events = append(c.Rounds[0].Events, event{Kind: evLink, Edge: i, AFirst: rng.IntN(2) == 0})
+	}
+	rd := &c.Rounds[0]
+	rng.Shuffle(len(rd.Events), func(i, j int) { rd.Events[i], rd.Events[j] = rd.Events[j], rd.Events[i] })
+	// stalled directions of edge 0 and publishes that are forwarded into them
+	e0 := c.G.edges[0]
+	// (with one direction stalled the peer's old session usually ends at once and closes
+	// the stream, which also frees the stuck one: both directions are the common choice)
+	switch rng.IntN(5) {
+	case 0:
+		rd.Gates = []gateSpec{{Edge: 0, Dir: 0, Mode: "stall"}}
+	case 1:
+		rd.Gates = []gateSpec{{Edge: 0, Dir: 1, Mode: "stall"}}
+	default:
+		rd.Gates = []gateSpec{{Edge: 0, Dir: 0, Mode: "stall"}, {Edge: 0, Dir: 1, Mode: "stall"}}
+	}
+	for _, g := range rd.Gates {
+		for k := 1 + rng.IntN(3); k > 0; k-- {
+			rd.Pubs = append(rd.Pubs, pubSpec{Origin: e0[g.Dir], Ch: "a"})
+		}
+	}
+	if rng.IntN(3) == 0 {
+		rd.Pubs = append(rd.Pubs, pubSpec{Origin: rng.IntN(c.G.n), Ch: "a"})
+	}
+	rd.OldEnd = []string{"unstall", "close"}[rng.IntN(2)]
+	for v := 0; v < c.G.n; v++ {
+		c.Rounds[1].Pubs = append(c.Rounds[1].Pubs, pubSpec{Origin: v, Ch: "a"})
+	}
+	c.Rounds[1].Concurrent = rng.IntN(2) == 0
+	assignKeys(rng, c, []string{"node", "node", "foreign", "mixed"}[rng.IntN(4)])
+	return c
+}
+
 type subState struct {
 	spec     subSpec
 	h        pubsub.Subscription
@@ -521,8 +667,10 @@ type c28run struct {
 	c    *c28cfg
 	m    *g9mesh.Mesh
 	subs []*subState // active
-	dup  map[[2]int]*g9mesh.Duplex
-	uuid map[[2]int]uint64
+	// dup / uuid are keyed by EDGE INDEX (cfg.G.edges may hold parallel edges:
+	// several links with different link ids between the same pair of nodes)
+	dup  map[int]*g9mesh.Duplex
+	uuid map[int]uint64
 	nh   int
 	hch  map[int]string // handler id -> channel
 	hnd  map[int]int    // handler id -> node
@@ -539,7 +687,7 @@ func (x *c28run) ident(node, key int) *keys.Identity {
 }
 
 func (x *c28run) pipe(g gateSpec) *g9mesh.Pipe {
-	d := x.dup[x.c.G.edges[g.Edge]]
+	d := x.dup[g.Edge]
 	if g.Dir == 0 {
 		return d.AB
 	}
@@ -593,8 +741,8 @@ func (x *c28run) apply(e event) bool {
 	case evLink:
 		ed := x.c.G.edges[e.Edge]
 		u := x.m.NextUUID()
-		x.uuid[ed] = u
-		x.dup[ed] = x.m.Link(ed[0], ed[1], u, e.AFirst)
+		x.uuid[e.Edge] = u
+		x.dup[e.Edge] = x.m.Link(ed[0], ed[1], u, e.AFirst)
 		x.r.Count("links_established", 1)
 	case evBarrier:
 		return x.quiesce("barrier")
@@ -614,7 +762,8 @@ func (x *c28run) subscribed(ch string) []bool {
 
 func (x *c28run) adj() [][]int {
 	a := make([][]int, x.c.G.n)
-	for ed := range x.dup {
+	for ei := range x.dup {
+		ed := x.c.G.edges[ei]
 		a[ed[0]] = append(a[ed[0]], ed[1])
 		a[ed[1]] = append(a[ed[1]], ed[0])
 	}
@@ -626,7 +775,8 @@ func (x *c28run) adj() [][]int {
 // model; the mechanism is named in the property's anchors).
 func (x *c28run) checkViews() bool {
 	ok := true
-	for ed, d := range x.dup {
+	for ei, d := range x.dup {
+		ed := x.c.G.edges[ei]
 		for dir := 0; dir < 2; dir++ {
 			u, p := ed[0], d.AB
 			if dir == 1 {
@@ -790,7 +940,28 @@ func (x *c28run) checkRound(pubs []pubRec, exact bool) (nontrivial bool) {
 // returned, or a router parked on a full send queue - and then opens the
 // gates. ok=false: a watchdog expired (inconclusive).
 func (x *c28run) publish(ri int, rs roundSpec, relinkDuring bool) (recs []pubRec, ok bool) {
-	recs = make([]pubRec, len(rs.Pubs))
+	recs = x.mkRecs(ri, rs)
+	var wg sync.WaitGroup
+	one := func(k int) { x.issue(&recs[k]) }
+	if relinkDuring {
+		ed := x.c.G.edges[0]
+		wg.Add(1)
+		x.m.Go(func() {
+			defer wg.Done()
+			for i := 0; i < 3; i++ {
+				runtime.Gosched()
+			}
+			// replace the stream of the same (peer, link) tuple on both ends
+			x.dup[0] = x.m.Link(ed[0], ed[1], x.uuid[0], true)
+			x.r.Count("stream_replacements", 1)
+		})
+	}
+	return x.publishGated(rs, recs, &wg, one)
+}
+
+// mkRecs prepares the ground truth of the publishes of a round.
+func (x *c28run) mkRecs(ri int, rs roundSpec) []pubRec {
+	recs := make([]pubRec, len(rs.Pubs))
 	for k, p := range rs.Pubs {
 		rc := pubRec{spec: p, payload: fmt.Sprintf("c%d/r%d/p%d/o%d/%s", x.c.Idx, ri, k, p.Origin, p.Ch)}
 		id := x.ident(p.Origin, p.Key)
@@ -813,33 +984,25 @@ func (x *c28run) publish(ri int, rs roundSpec, relinkDuring bool) (recs []pubRec
 		}
 		recs[k] = rc
 	}
-	var wg sync.WaitGroup
-	one := func(k int) {
-		rc := &recs[k]
-		var err error
-		if rc.via != nil {
-			err = rc.via.Publish([]byte(rc.payload))
-		} else {
-			err = x.m.Nodes[rc.spec.Origin].FS.(g9mesh.Publisher).Publish(x.m.Ctx, rc.spec.Ch, rc.priv, []byte(rc.payload))
-		}
-		if err != nil {
-			x.r.Inconclusive("publish failed: " + err.Error())
-		}
-		x.r.Count("publishes", 1)
+	return recs
+}
+
+// issue performs one publish call.
+func (x *c28run) issue(rc *pubRec) {
+	var err error
+	if rc.via != nil {
+		err = rc.via.Publish([]byte(rc.payload))
+	} else {
+		err = x.m.Nodes[rc.spec.Origin].FS.(g9mesh.Publisher).Publish(x.m.Ctx, rc.spec.Ch, rc.priv, []byte(rc.payload))
 	}
-	if relinkDuring {
-		ed := x.c.G.edges[0]
-		wg.Add(1)
-		x.m.Go(func() {
-			defer wg.Done()
-			for i := 0; i < 3; i++ {
-				runtime.Gosched()
-			}
-			// replace the stream of the same (peer, link) tuple on both ends
-			x.dup[ed] = x.m.Link(ed[0], ed[1], x.uuid[ed], true)
-			x.r.Count("stream_replacements", 1)
-		})
+	if err != nil {
+		x.r.Inconclusive("publish failed: " + err.Error())
 	}
+	x.r.Count("publishes", 1)
+}
+
+func (x *c28run) publishGated(rs roundSpec, recs []pubRec, wgp *sync.WaitGroup, one func(k int)) ([]pubRec, bool) {
+	wg := wgp
 	for _, g := range rs.Gates {
 		if g.Mode == "hold" {
 			x.pipe(g).HoldReads(true)
@@ -942,6 +1105,47 @@ func (x *c28run) publish(ri int, rs roundSpec, relinkDuring bool) (recs []pubRec
 	return recs, true
 }
 
+// relinkStalled runs round 0 of kind "relinkstall" (see genC28RelinkStall).
+// Every wait is for exact quiescence (a session stuck in a stalled Pipe.Write
+// counts as idle: only the harness can wake it).
+func (x *c28run) relinkStalled(ri int, rs roundSpec) (recs []pubRec, ok bool) {
+	recs = x.mkRecs(ri, rs)
+	old := x.dup[0]
+	openOld := func() { old.AB.StallWrites(false); old.BA.StallWrites(false) }
+	for _, g := range rs.Gates {
+		x.pipe(g).StallWrites(true)
+		x.r.Count("gates_closed_stall", 1)
+	}
+	// few publishes (far below the per-peer queue size): no call can block
+	for k := range recs {
+		x.issue(&recs[k])
+	}
+	if !x.quiesce("publishes into the stalled old stream") {
+		openOld()
+		return recs, false
+	}
+	stuck := old.AB.WritersBlocked() + old.BA.WritersBlocked()
+	x.r.Count("relinkstall_old_sessions_stuck_in_stream_write", stuck)
+	ed := x.c.G.edges[0]
+	x.dup[0] = x.m.Link(ed[0], ed[1], x.uuid[0], len(rs.Pubs)%2 == 0)
+	x.r.Count("stream_replacements", 1)
+	// the replacement sessions have started once the routers are idle again
+	if !x.quiesce("replacement of the stalled stream") {
+		openOld()
+		return recs, false
+	}
+	if old.AB.WritersBlocked()+old.BA.WritersBlocked() > 0 {
+		x.r.Count("relinkstall_old_sessions_alive_after_replacement_started", 1)
+	}
+	if rs.OldEnd == "close" {
+		old.Close()
+	} else {
+		openOld()
+	}
+	x.r.Count("relinkstall_old_stream_end_"+rs.OldEnd, 1)
+	return recs, true
+}
+
 func runC28(r *vf.Run, env *g9mesh.Env, pool []*keys.Identity, c *c28cfg, jr *journal) {
 	jr.begin(c.Idx, c.desc())
 	defer jr.end(c.Idx)
@@ -962,7 +1166,7 @@ func runC28(r *vf.Run, env *g9mesh.Env, pool []*keys.Identity, c *c28cfg, jr *jo
 	}
 	defer m.Close()
 	m.Adopt()
-	x := &c28run{r: r, c: c, m: m, dup: map[[2]int]*g9mesh.Duplex{}, uuid: map[[2]int]uint64{}, hch: map[int]string{}, hnd: map[int]int{}, foreign: foreign}
+	x := &c28run{r: r, c: c, m: m, dup: map[int]*g9mesh.Duplex{}, uuid: map[int]uint64{}, hch: map[int]string{}, hnd: map[int]int{}, foreign: foreign}
 	nontrivial := false
 	for ri, rs := range c.Rounds {
 		for _, e := range rs.Events {
@@ -979,8 +1183,14 @@ func runC28(r *vf.Run, env *g9mesh.Env, pool []*keys.Identity, c *c28cfg, jr *jo
 			r.Case(c.desc(), false)
 			return
 		}
-		relink := c.Kind == "relink" && ri == 0
-		recs, pok := x.publish(ri, rs, relink)
+		relink := (c.Kind == "relink" || c.Kind == "relinkstall") && ri == 0
+		var recs []pubRec
+		var pok bool
+		if c.Kind == "relinkstall" && ri == 0 {
+			recs, pok = x.relinkStalled(ri, rs)
+		} else {
+			recs, pok = x.publish(ri, rs, relink)
+		}
 		if !pok {
 			r.Case(c.desc(), false)
 			return
@@ -1022,10 +1232,11 @@ func runC28(r *vf.Run, env *g9mesh.Env, pool []*keys.Identity, c *c28cfg, jr *jo
 func TestC28(t *testing.T) {
 	r := vf.Start(t, "C28", vf.Exploration)
 	defer r.Finish()
-	r.SetRule("configuration = (connected graph: all 9 connected graphs on 2-4 nodes, line/star/ring/complete/PRNG graphs on 5-6 nodes; PRNG node relabelling) x (PRNG subscriber subsets on 1-2 channels, 1-2 handlers, sometimes 2 subscriptions per node/channel) x (PRNG order of Execute start / AddSubscription / AddPeerStream events with quiescence barriers; optionally a second round of late subscriptions and links) x (1-5 publishes per round from PRNG origins, via the subscription or FloodSub.Publish, sequential or concurrent); plus burst configurations (dense graphs, 40+ concurrent publishes), stream-replacement configurations (the stream of an existing (peer, link) tuple is replaced during a burst), delay configurations (mostly cyclic graphs; PRNG directions of edges - preferably out of the publishing nodes - hold back their copies (reads held) or stall until the rest of the mesh is exactly quiescent, then are opened one by one) and back-pressure configurations (trees / small cyclic graphs; the streams on one direction of an edge, on all edges into a victim node or on a PRNG set of directions stop draining (writes block) while 40-200 messages are published sequentially or concurrently from one or from PRNG origins; released when a router is parked on a full send queue or everything is exactly quiescent). Every subscription / direct publish signs with the node's link identity or with a foreign identity (key mode node / foreign / mixed per configuration). Half of the run has a scheduler yield installed at floodsub.seen.gap. Non-trivial = at least one message was observed exactly once at a handler on a node other than its origin and every demanded delivery was present at exact quiescence (pipes empty, readers parked, all floodsub goroutines of the mesh parked at their idle selects). Oracle = refFloodReach reference model: exactly-once per handler on reachable subscribers, zero elsewhere, no copy on an edge into the origin, every forwarded copy preceded (tap clock) by a reception from another peer.")
+	r.SetRule("configuration = (connected graph: all 9 connected graphs on 2-4 nodes, line/star/ring/complete/PRNG graphs on 5-6 nodes; PRNG node relabelling) x (PRNG subscriber subsets on 1-2 channels, 1-2 handlers, sometimes 2 subscriptions per node/channel) x (PRNG order of Execute start / AddSubscription / AddPeerStream events with quiescence barriers; optionally a second round of late subscriptions and links) x (1-5 publishes per round from PRNG origins, via the subscription or FloodSub.Publish, sequential or concurrent); plus burst configurations (dense graphs, 40+ concurrent publishes), stream-replacement configurations (the stream of an existing (peer, link) tuple is replaced during a burst), delay configurations (mostly cyclic graphs; PRNG directions of edges - preferably out of the publishing nodes - hold back their copies (reads held) or stall until the rest of the mesh is exactly quiescent, then are opened one by one) and back-pressure configurations (trees / small cyclic graphs; the streams on one direction of an edge, on all edges into a victim node or on a PRNG set of directions stop draining (writes block) while 40-200 messages are published sequentially or concurrently from one or from PRNG origins; released when a router is parked on a full send queue or everything is exactly quiescent), multigraph configurations (small graphs on 3-5 nodes in which 1-2 PRNG links, or every link, are doubled or tripled: parallel streams with different link ids between the same pair of nodes, either side initiating, established together with or a round after the first link, sometimes one of the parallel links slow (reads held); publishers are PRNG nodes, so neighbours forward third-party messages over parallel links; the wire rules are evaluated per PEER over all of its links) and stalled-replacement configurations (the stream of edge 0's (peer, link) tuple is replaced on both ends while the old stream is stalled with 1-3 publishes stuck in its write, exact quiescence = replacement sessions started, then the old stream drains or is closed so that the old sessions exit late; then one publish from every node must be delivered exactly). Every subscription / direct publish signs with the node's link identity or with a foreign identity (key mode node / foreign / mixed per configuration). Half of the run has a scheduler yield installed at floodsub.seen.gap. Non-trivial = at least one message was observed exactly once at a handler on a node other than its origin and every demanded delivery was present at exact quiescence (pipes empty, readers parked, all floodsub goroutines of the mesh parked at their idle selects). Oracle = refFloodReach reference model: exactly-once per handler on reachable subscribers, zero elsewhere, no copy on an edge into the origin, every forwarded copy preceded (tap clock) by a reception from another peer.")
 	r.Assume("reachable = reachable through peers subscribed to the channel (DESIGN 8)")
 	r.Assume("the original publisher of a message is the peer whose key signed it (from_peer_id). Subscriptions / publishes use the node's link identity or a foreign key (an identity that is not the link identity of any node of the mesh). With the node key, no copy may appear on any edge into the publishing node. With a foreign key the original publisher is not a peer anybody holds a link to, so copies on edges into the publishing node are only counted; exactly-once hand-over to every local subscription (including those of the publishing node), delivery to every reachable subscriber and the previous-hop rule for every forwarding node are demanded unchanged. Publishing with the link identity of ANOTHER node of the mesh is not exercised")
 	r.Assume("closed gates (held reads = a slow link, stalled writes = a stream that does not drain) are opened when the mesh rests against them, decided from goroutine states (exact quiescence with all publish calls returned, or a router parked on a full per-peer send queue), never from elapsed time; once all gates are open and the mesh is exactly quiescent delivery must be exact")
+	r.Assume("never sends a message back to the peer it received it from is about PEERS: with parallel links a copy to the previous hop over any of its links is an echo; a neighbour legitimately receives one copy per parallel link (de-duplicated by the receiver)")
 	r.Assume("publishes raced with a stream replacement need not be delivered (only no duplicate / echo / crash); after re-quiescence delivery is exact again")
 	env, err := getEnv()
 	if err != nil {
@@ -1041,6 +1252,8 @@ func TestC28(t *testing.T) {
 	nDelay := r.N(40, 600)
 	nStall := r.N(16, 160)
 	stallHi := r.N(160, 200)
+	nMulti := r.N(32, 500)
+	nRelinkStall := r.N(16, 200)
 	var phases [2][]*c28cfg
 	idx := 0
 	for ph := 0; ph < 2; ph++ {
@@ -1062,6 +1275,14 @@ func TestC28(t *testing.T) {
 		}
 		for i := 0; i < nStall/2; i++ {
 			phases[ph] = append(phases[ph], genC28Stall(rng, idx, ph == 1, 40, stallHi))
+			idx++
+		}
+		for i := 0; i < nMulti/2; i++ {
+			phases[ph] = append(phases[ph], genC28Multi(rng, idx, ph == 1))
+			idx++
+		}
+		for i := 0; i < nRelinkStall/2; i++ {
+			phases[ph] = append(phases[ph], genC28RelinkStall(rng, idx, ph == 1))
 			idx++
 		}
 	}
